@@ -33,7 +33,10 @@ Lines == {LineOf(delivered[k]) : k \in DOMAIN delivered}
 Emit == IF phase = "done" THEN PrintT(<<"H", delivered, res, st.ver>>) ELSE TRUE
 
 \* the verdict: refused with VersionError exactly when the declarative verdict is an error
-Agrees == phase = "done" =>
+\* level 0 is documented to skip the cross-check between a VN header and the content: at that
+\* level the claim is made for the documents without a VN header only
+Claimed == Cat.cfg.vlevel > 0 \/ \A k \in DOMAIN delivered : VNs(LineOf(delivered[k])) = {}
+Agrees == (phase = "done" /\ Claimed) =>
    /\ (res # "ok") = DeclError(Cat.cfg.version, Lines)
    /\ (res # "ok" => res = "VersionError")
    /\ (res = "ok" =>
